@@ -45,9 +45,10 @@ def model_to_dict(m, limit=400):
 class Batch:
     """collects obligations and discharges them with one incremental solver (push/pop)"""
 
-    def __init__(self, tactic='qfnra-nlsat', timeout_ms=60000, assumptions=()):
+    def __init__(self, tactic='qfnra-nlsat', timeout_ms=60000, assumptions=(), budget_s=None):
         self.tactic = tactic
         self.timeout_ms = timeout_ms
+        self.budget_s = budget_s
         self.assumptions = list(assumptions)
         self.items = []          # (name, [constraints], info)
         self.results = []
@@ -102,7 +103,12 @@ class Batch:
     def run(self, stop_on_sat=False):
         s = self._solver()
         step = max(1, len(self.items) // 2 + 1)      # second opinion on the first and the middle obligation of every batch
+        t_start = time.time()
         for name, cons, info in self.items:
+            if self.budget_s is not None and time.time() - t_start > self.budget_s:
+                # wall budget of this batch exhausted: the remaining obligations are undecided (never counted as discharged)
+                self.results.append(Result(name, 'unknown', None, 0.0, 'batch time budget of %d s exhausted' % self.budget_s))
+                continue
             t0 = time.time()
             # cheap syntactic pre-pass: identical sides (still recorded as discharged by simplification)
             s.push()
